@@ -389,6 +389,19 @@ func run(raw json.RawMessage) driver.Result {
 		def.Path = &pathA
 		kind = "file-malformed"
 	}
+	// a flag (or env variable) given explicitly with the DEFAULT's value must still win over the file
+	if def.A != nil && r.Chance(1, 3) {
+		v := *def.A
+		flagL.A = &v
+		w := v + 5
+		fileA.A, fileB.A = &w, &w
+	}
+	if def.B != nil && r.Chance(1, 4) {
+		v := *def.B
+		envL.B = &v
+		w := v + "x"
+		fileA.B, fileB.B = &w, &w
+	}
 	contentA := render(format, fileA)
 	if kind == "file-malformed" {
 		contentA = "{{{ not : [ valid"
@@ -494,6 +507,47 @@ func run(raw json.RawMessage) driver.Result {
 		direct = append(direct, "ez entry point panicked: "+out.err.Error())
 	}
 	implOK := out.err == nil
+	if implOK {
+		// direct oracle, independent of the model and of the sources' own Value():
+		// per leaf the last of default < file < env < flag that set it
+		fl := fileA
+		if kind == "path-env-overrides" || kind == "path-flag-overrides" {
+			fl = fileB
+		}
+		if kind == "no-path" {
+			fl = leafVals{}
+		}
+		exp := *defaultsOf(def)
+		for _, lv := range []leafVals{fl, envL, flagL} {
+			if lv.Valid != nil {
+				exp.Valid = *lv.Valid
+			}
+			if lv.A != nil {
+				exp.A = *lv.A
+			}
+			if lv.B != nil {
+				exp.B = *lv.B
+			}
+			if lv.X != nil {
+				exp.Sub.X = *lv.X
+			}
+			if lv.Y != nil {
+				exp.Sub.Y = *lv.Y
+			}
+			if lv.L != nil {
+				exp.L = lv.L
+			}
+			if lv.N != nil {
+				exp.N = *lv.N
+			}
+			if lv.Path != nil {
+				exp.ConfigFile = *lv.Path
+			}
+		}
+		if !reflect.DeepEqual(&exp, out.d.View()) {
+			direct = append(direct, fmt.Sprintf("first view is not defaults < file < env < flags per leaf: got %+v want %+v", *out.d.View(), exp))
+		}
+	}
 	viewTerm := "None"
 	eventsEmpty := true
 	if implOK {
